@@ -18,7 +18,7 @@ import ast
 from rsx.ctor import bind_args
 from rsx.dispatch import Ctx, dispatch, shadowed_branches
 from .common import (AnalysisError, Finding, RuleResult, ClassInfo, ntext, walk_no_nested,
-                     body_stmts, is_self_attr, call_name, const_str)
+                     body_stmts, is_self_attr, call_name, const_str, single_defs, expand_locals)
 
 RULE = 'R05'
 TEXT = ('every (constraint class, atom letter) the package can create is routed by st() to a '
@@ -110,12 +110,14 @@ def consumers(repo, cls, listname, only_func=None):
         dm = c.methods.get('do_math')
         if dm is None or (only_func is not None and dm is not only_func):
             continue
+        defs = single_defs(dm.node)
         for n in walk_no_nested(dm.node):
-            if isinstance(n, ast.For) and _mentions(n.iter, listname):
+            if isinstance(n, ast.For) and (_mentions(n.iter, listname) or
+                                           _mentions(expand_locals(dm.node, n.iter, defs=defs), listname)):
                 out.append((dm, n, 'for'))
             elif isinstance(n, (ast.ListComp, ast.GeneratorExp, ast.SetComp)):
                 for g in n.generators:
-                    if _mentions(g.iter, listname):
+                    if _mentions(g.iter, listname) or _mentions(expand_locals(dm.node, g.iter, defs=defs), listname):
                         out.append((dm, n, 'comp'))
     return out
 
